@@ -14,7 +14,7 @@ CONSTANTS MaxDepth, EmitVectors
 VARIABLES v, d
 vars == <<v, d>>
 
-Init == v \in Scalars /\ d = 0
+Init == (v \in Scalars /\ d = 0) \/ (v \in NameFamily /\ d = MaxDepth)
 Next == d < MaxDepth /\ v' \in Wraps(v) /\ d' = d + 1
 Spec == Init /\ [][Next]_vars
 
